@@ -507,16 +507,25 @@ func makeTopDict(info *type1.FontInfo) cffDict {
 		topDict[opItalicAngle] = []interface{}{info.ItalicAngle}
 	}
 	if info.UnderlinePosition != defaultUnderlinePosition {
-		topDict[opUnderlinePosition] = []interface{}{int32(info.UnderlinePosition)}
+		topDict[opUnderlinePosition] = []interface{}{dictNumber(float64(info.UnderlinePosition))}
 	}
 	if info.UnderlineThickness != defaultUnderlineThickness {
-		topDict[opUnderlineThickness] = []interface{}{int32(info.UnderlineThickness)}
+		topDict[opUnderlineThickness] = []interface{}{dictNumber(float64(info.UnderlineThickness))}
 	}
 	// if info.IsOutlined {
 	// 	topDict[opPaintType] = []interface{}{int32(2)} // per font
 	// }
 
 	return topDict
+}
+
+// dictNumber returns x as an integer operand if x is an integer which fits
+// into an int32, and as a real operand otherwise.
+func dictNumber(x float64) interface{} {
+	if i := int32(x); float64(i) == x {
+		return i
+	}
+	return x
 }
 
 type privateInfo struct {
